@@ -4,6 +4,8 @@ import (
 	"context"
 	"fmt"
 	"sync/atomic"
+
+	"github.com/acquirecloud/golibs/kvs"
 	"time"
 
 	dist "github.com/acquirecloud/golibs/kvs/distlock"
@@ -539,5 +541,94 @@ func TwoLocksOneSlowStorage(L time.Duration) (out Outcome) {
 	}
 	ly.Unlock()
 	lx.Unlock()
+	return out
+}
+
+// OrphanExpiryWithWaiters: a lock record without an owner (a holder that died, or a Create whose answer was lost)
+// runs out while n Lockers of n providers are parked in Lock. Each of them, once it has the lock, stays 1.2
+// leases; the number of callers between "Lock returned" and "Unlock called" must never exceed one. Logical verdict.
+func OrphanExpiryWithWaiters(L time.Duration, n int) (out Outcome) {
+	inner := inmem.New()
+	at := time.Now().Add(L / 2)
+	if _, err := inner.Create(context.Background(), kvs.Record{Key: "/lt/x", Value: []byte{}, ExpiresAt: &at}); err != nil {
+		return Outcome{Skipped: "could not plant the orphan record: " + err.Error()}
+	}
+	var holders, worst atomic.Int32
+	done := make(chan struct{}, n)
+	for i := 0; i < n; i++ {
+		p := dist.NewKvsLockProvider(inner, "/lt/")
+		dist.VerifSetLeaseTTL(p, L)
+		defer p.Shutdown()
+		l := p.NewLocker("x")
+		go func() {
+			l.Lock()
+			if h := holders.Add(1); h > worst.Load() {
+				worst.Store(h)
+			}
+			time.Sleep(6 * L / 5)
+			holders.Add(-1)
+			l.Unlock()
+			done <- struct{}{}
+		}()
+	}
+	for i := 0; i < n; i++ {
+		select {
+		case <-done:
+		case <-time.After(time.Duration(n+2)*2*L + 30*time.Second):
+			return Outcome{Skipped: "the waiters did not all get the lock"}
+		}
+	}
+	if w := worst.Load(); w > 1 {
+		out.Sig = "two-holders-after-an-orphan-record-expired"
+		out.What = fmt.Sprintf("lease %v: an ownerless lock record expired while %d Lockers were parked in Lock; afterwards %d of them held the lock at the same time (between Lock returning and Unlock being called)", L, n, w)
+	}
+	return out
+}
+
+// RelockDuringSlowRenewal: the answer of a renewal of the first tenure is still on its way (executed, answer
+// parked for one lease) when the holder unlocks and the same Locker is locked again. The second tenure - all its
+// own storage calls are answered at once - stays 2.5 leases; a Locker of another provider spinning TryLock must
+// never get the lock.
+func RelockDuringSlowRenewal(L time.Duration, k int) (out Outcome) {
+	stop := canary()
+	defer func() { out.Stall = stop() }()
+	inner := inmem.New()
+	tA := New(inner)
+	pa := dist.NewKvsLockProvider(tA, "/lt/")
+	pb := dist.NewKvsLockProvider(inner, "/lt/")
+	for _, p := range []dist.LockProvider{pa, pb} {
+		dist.VerifSetLeaseTTL(p, L)
+		defer p.Shutdown()
+	}
+	g := tA.Gate(fmt.Sprintf("Cas#%d:after", k))
+	la, lb := pa.NewLocker("x"), pb.NewLocker("x")
+	la.Lock()
+	if !Arrived(g, time.Duration(k+2)*L+10*time.Second) {
+		close(g.Release)
+		la.Unlock()
+		return Outcome{Skipped: "renewal did not come"}
+	}
+	la.Unlock()
+	la.Lock() // second tenure
+	t0 := time.Now()
+	released := false
+	for time.Since(t0) < 5*L/2 {
+		if !released && time.Since(t0) > L {
+			close(g.Release) // the old answer arrives at last
+			released = true
+		}
+		if lb.TryLock(context.Background()) {
+			out.Sig = "two-holders-after-relock-during-a-slow-renewal"
+			out.What = fmt.Sprintf("lease %v: the answer of renewal %d of the first tenure was still on its way when the holder unlocked and locked the same Locker again; %v into the second tenure (all of its own storage calls answered at once) another provider's TryLock succeeded although the holder has not unlocked; storage calls: %v", L, k, time.Since(t0).Round(time.Millisecond), tA.Events())
+			out.TimeBound = true
+			lb.Unlock()
+			break
+		}
+		time.Sleep(L / 10)
+	}
+	if !released {
+		close(g.Release)
+	}
+	la.Unlock()
 	return out
 }
